@@ -158,12 +158,14 @@ Definition burst_accepts (total : list resp) (observed : list resp) (d1 : option
 
 (** [acc]: [None] outside a burst, [Some (responses so far, the burst contains
     the Subscribe step)] inside *)
-Fixpoint model_from (allow : string -> string -> bool) (a : aclcfg) (rq : option request)
+Fixpoint model_from (tbl : list (string * string * bool)) (a : aclcfg) (rq : option request)
   (i : nat) (st : rstate) (acc : option (list resp * bool)) (ops : list step) (obs : list oobs)
   : list (nat * N) * rstate :=
   match ops, obs with
   | [], [] => (match acc with None => [] | Some _ => [(i, 1%N)] end, st)
   | s :: ops', ob :: obs' =>
+      let allow := allow_of tbl in          (* the table in force during this step *)
+      let tbl' := match s with SAcl t => t | _ => tbl end in
       let '(st', g, cr) := run_step allow a rq st s in
       let is_sub := match s with SSub | SPoll => true | _ => false end in   (* a walk *)
       let v2 := if cres_eqb (ob_cres ob) cr then [] else [(i, 1%N)] in
@@ -190,14 +192,14 @@ Fixpoint model_from (allow : string -> string -> bool) (a : aclcfg) (rq : option
                    else [(i, 1%N)]),
              None)
         end in
-      let rest := model_from allow a rq (S i) st' acc' ops' obs' in
+      let rest := model_from tbl' a rq (S i) st' acc' ops' obs' in
       (v1 ++ v2 ++ vd ++ fst rest, snd rest)
   | _, _ => ([(i, 1%N)], st)            (* not one observation per step *)
   end.
 
 Definition model_check (a : aclcfg) (cs : case) (obs : list oobs) (stt : status) (fin : option dump)
   : list (nat * N) :=
-  let r := model_from (allow_of (acl_table cs)) a (c_req cs) 0
+  let r := model_from (acl_table cs) a (c_req cs) 0
                       (RS (empty_cache (c_targets cs)) PBefore) None (c_ops cs) obs in
   let n := List.length (c_ops cs) in
   fst r
@@ -386,7 +388,7 @@ Fixpoint kp_from (rq : request) (i : nat) (live : list string) (act : option (gp
             | Some (_, false), _ => (tagged i (nothing_sent (ob_group ob)), act, O)
             | _, _ => ([], act, O)
             end
-        | SCache _ =>
+        | SCache _ | SAcl _ =>
             (tagged i (match act with Some _ => nothing_sent (ob_group ob) | None => [] end), act, O)
         end in
       let rest := kp_from rq (S i) (live_after live s) (snd (fst here)) seen (snd here) ops' obs' in
